@@ -172,7 +172,7 @@ def case_untouched(kind, rows, dims, B):
     def replay(cex):
         return replay_untouched(kind, rows, dims, B, cex.values)
 
-    return Case(name, body, replay, time_budget=200, split=0, solver_timeout_ms=8000)
+    return Case(name, body, replay, time_budget=300, split=3 if (rows >= 3 and kind in ("cors", "rf", "gp-ei", "xgb", "bestbatch")) else 0, solver_timeout_ms=8000)
 
 
 def _real_sampler(kind, B):
